@@ -9,7 +9,7 @@ from hypothesis import strategies as st
 from vlib import gens
 from vlib.core import Prop, Sub, Violation, calling, check
 from vlib.oracles import bvls, lp_dist, lp_margin
-from vlib.systems import Sys, matrix_system, target_rows
+from vlib.systems import whole_number_bounds, Sys, matrix_system, target_rows
 
 HIGH = dict(solver="CLARABEL", tol_gap_abs=1e-9, tol_gap_rel=1e-9, tol_feas=1e-9, max_iter=500)
 
@@ -110,6 +110,7 @@ def body_hull(case):
 @st.composite
 def range_case(draw):
     sysd = draw(matrix_system(m=(2, 4), shape="under", surplus=(1, 2), ub_kinds=("finite",), lb_kinds=("zero", "zero", "pos"), sub_cond=1e4))
+    sysd, _whole = draw(whole_number_bounds(sysd))
     rows = draw(target_rows(sysd, ["interior", "interior", "facet", "vertex"], nrows=(1, 2)))
     s, c, asserted = draw(unit_factors(Sys(sysd)))
     return dict(system=sysd, rows=rows, s=s, c=c, asserted=asserted, n_spaced=draw(st.sampled_from([None, 2, 3, 5])))
@@ -121,7 +122,7 @@ def body_range(case):
     sv1 = Sys(case["system"])
     s, c = case["s"], case["c"]
     sv2 = Sys(twin_system(case["system"], s, c))
-    labs = sv1.labels() + ["asserted" if case["asserted"] else "stress"]
+    labs = sv1.labels() + ["asserted" if case["asserted"] else "stress"] + ([f"bounds:{case['system']['bounds_form']}"] if case["system"].get("bounds_form") else [])
     for r in case["rows"]:
         b = np.asarray(r["b"], dtype=float)
         out = []
